@@ -5,6 +5,7 @@ C01 (`C14.pre_eq_spec`).
 -/
 import SophtVerif.Props.C04Sum
 import SophtVerif.Props.C14
+import SophtVerif.Props.C01_3D
 
 set_option linter.unusedVariables false
 set_option linter.unusedSectionVars false
@@ -34,5 +35,15 @@ theorem C04_program_conserves_sum (T : Transc K) (c : NS2Cfg K) (ny nx : ℕ) (h
   unfold C14.preSpec
   rw [hcy, hcx]
   exact C04_step_conserves_sum ny nx _ _ _ c.forcing _ _ _ _ _ hω hFx hFy
+
+/-- C04 (grid sum, 2D passive-transport step PROGRAM): unchanged for any velocity field, viscosity, dt when the transported
+field vanishes within 4 cells of the boundary -/
+theorem C04_passive_program_conserves_sum_2d (ny nx : ℕ) (hny : 1 ≤ ny) (hnx : 1 ≤ nx) (f flux : B) (vel : Vec2 B)
+    (hne : flux ≠ f) (hvx : vel.x ≠ flux) (hvy : vel.y ≠ flux) (dt dx nu : K) (s : Store2 B K)
+    (hm : Margin ny nx 4 (s f)) :
+    gsum ny nx (exec2 (passiveStep2D ny nx f flux vel dt dx nu) s f) = gsum ny nx (s f) := by
+  have h := C01.C01_passive_step_2d (ny : ℤ) (nx : ℤ) (by exact_mod_cast hny) (by exact_mod_cast hnx) f flux vel hne hvx hvy dt dx nu s
+  rw [gsum_congr ny nx _ _ h, C04_diffuse_conserves_sum ny nx _ _ (advect_margin ny nx _ _ _ _ hm),
+    C04_advect_conserves_sum ny nx _ _ _ _ hm]
 
 end Sopht.Props.C04
